@@ -6,7 +6,7 @@
     are translated from /repo on every run. *)
 From Coq Require Import ZArith List Bool.
 From Geo Require Import Base.GoPrim Gen.CellIDCov Model.Shapes Model.Index
-  Proofs.C06_Slices Proofs.C06_Prefix Proofs.C06_Shapes Proofs.C06_Polygons Proofs.C06_Index.
+  Proofs.C06_Slices Proofs.C06_Prefix Proofs.C06_Shapes Proofs.C06_Polygons Proofs.C06_Index Proofs.C06_IndexOk.
 Import ListNotations.
 Local Open Scope Z_scope.
 
@@ -181,3 +181,17 @@ Theorem clip_parity_from_edges :
   parity_crossings point crossing_sign vertex_crossing a b (edges_of point s ids).
 Proof. exact Proofs.C06_Index.clip_parity_from_edges. Qed.
 Print Assumptions clip_parity_from_edges.
+
+(** * Per-instance validation: the structural part of [index_ok] is DECIDED by [index_okb] on every
+      (small) index the observer dumps; a validated index satisfies the premise [cells_ok] of the
+      location theorems and the edge-list clause of [index_ok]. Cell validity and ranges are the
+      translated s2.CellID.IsValid / RangeMin / RangeMax. *)
+Theorem index_okb_reflects : forall numEdges idx,
+  index_okb numEdges idx = true -> index_ok_struct numEdges idx.
+Proof. exact index_okb_sound. Qed.
+Print Assumptions index_okb_reflects.
+
+Theorem validated_index_cells_ok : forall numEdges idx,
+  index_ok_struct numEdges idx -> cells_ok (cell_ids idx).
+Proof. exact index_ok_struct_cells_ok. Qed.
+Print Assumptions validated_index_cells_ok.
